@@ -1,18 +1,19 @@
 PROPERTY = "C13"
 ENCODED = ["linux::maps_reader::MappingInfo::aggregate", "maps_reader::{sanitize_path,is_mapping_a_path}", "MappingInfo::{is_empty_page,end_address,is_executable,name_is_path}"]
-BOUNDS = {"lines": "2, 3 and (thorough) 4 lines", "names": "concrete per instance from {anonymous, /a, '/a (deleted)', /b, [heap], [vdso]} - 13 name patterns",
+BOUNDS = {"lines": "2 lines (3 in the thorough tier)", "names": "quick tier: anonymous and pseudo-named lines ([heap], [vdso]); file-named lines (/a, '/a (deleted)', /b) only in the thorough tier, where every instance so far ran out of memory",
           "numbers": "first start k<<12 (16<=k<2^34), each line 1..8 pages, gap before each line 0..2 pages, all 5 permission bits, offset and vDSO address fully symbolic"}
-OUTSIDE = ["more than 4 lines", "text parsing of /proc/<pid>/maps (procfs-core)", "pseudo-names built with format! ([stack:N], /SYSVxxxx, [other])", "32-bit address conversion failures"]
+OUTSIDE = ["the merge rules that need a FILE mapping (reserved gap after / inside an executable file mapping, ' (deleted)' suffix): every harness instance with a path name exceeded 19-25 GB within 9 minutes, so these rules are NOT decided (the seeded C13 change lives there and is missed)", "more than 3 lines", "text parsing of /proc/<pid>/maps (procfs-core)", "pseudo-names built with format! ([stack:N], /SYSVxxxx, [other])", "32-bit address conversion failures"]
 ASSUMPTIONS = ["input lines ascending and non-overlapping (a well-formed memory map)", "std::hash::RandomState::new stubbed (getrandom FFI); no map is hashed into",
                "MemoryMaps built by transmuting Vec<MemoryMap> (the struct is #[non_exhaustive])"]
 L = {"RawIterRange": 2, "drop_elements": 2, "simd_bitmask": 2, "memchr": 16, "memcmp": 16, "compare_bytes": 16}
 def A(n, d, tier="quick", t=1800): return H("c13_aggregate::" + n, loops=L, desc=d, tier=tier, timeout=t, est_gb=12, mem_gb=24)
 HARNESSES = [
-    A('c13_2_same_adjacent', 'same file, adjacent (gap is a shape)'), A('c13_2_same_apart', 'same file, one page apart'), A('c13_2_diff_adjacent', 'different files, adjacent'), A('c13_2_file_anon_adjacent', 'file + anonymous, adjacent'), A('c13_3_fold_adjacent', 'file, anonymous, file: adjacent', 'thorough'),
-    A("c13_2_same", "2 lines, same file"), A("c13_2_deleted_same", "2 lines, '/a (deleted)' then /a"), A("c13_2_diff", "2 lines, different files"),
-    A("c13_2_file_anon", "file then anonymous (reserved-gap rule)"), H("c13_aggregate::c13_2_anon_anon", loops=L, desc="two anonymous lines (never merged)", timeout=1800, expect_unsat_covers=("a merge happened",)), A("c13_2_heap_heap", "two [heap] lines"),
-    A("c13_2_vdso_gate", "anonymous + [vdso] with a symbolic gate address"), A("c13_2_file_anon_gate", "file + anonymous with a symbolic gate address"),
-    A("c13_3_fold", "file, empty page, same file (fold rule)"), A("c13_3_fold_other", "file, empty page, other file", tier="thorough"),
-    A("c13_3_same", "three lines of one file", tier="thorough"), A("c13_3_anon_file_anon", "anonymous, file, anonymous", tier="thorough"),
-    A("c13_4_fold_then_same", "file, empty page, same file, same file", tier="thorough", t=3000),
+    H("c13_aggregate::c13_2_anon_anon", loops=L, desc="two anonymous lines (never merged)", timeout=1800, expect_unsat_covers=("a merge happened",)),
+    A("c13_2_heap_heap", "two [heap] lines: same-name merge iff contiguous"),
+    H("c13_aggregate::c13_2_heap_anon", loops=L, desc="[heap] then anonymous (never merged: the reserved-gap rule needs a file mapping)", timeout=1800, est_gb=12, mem_gb=24, expect_unsat_covers=("a merge happened",)),
+    A("c13_2_anon_vdso_gate", "anonymous + [vdso] with a symbolic gate address (renaming)"),
+    A("c13_3_heap_heap_heap", "three [heap] lines", "thorough"), A("c13_3_anon_heap_anon", "anonymous, [heap], anonymous", "thorough"),
+    # file-named lines: every instance so far ran out of memory (19-25 GB within 9 min); kept for the thorough tier
+    A("c13_2_same_adjacent", "same file, adjacent", "thorough", 3000), A("c13_2_diff_adjacent", "different files, adjacent", "thorough", 3000),
+    A("c13_2_file_anon_adjacent", "file + anonymous, adjacent (reserved-gap rule)", "thorough", 3000), A("c13_3_fold_adjacent", "file, anonymous, file: adjacent (fold rule)", "thorough", 3000),
 ]
